@@ -112,6 +112,13 @@ struct LockFreeOps : std::true_type {};
 template <class T, class... P>
 struct LockFreeOps<xenium::vyukov_bounded_queue<T, P...>> : std::false_type {}; // try_push/try_pop are the strong (blocking) variants
 
+// try_push of vyukov_bounded_queue takes forwarding references: a rejected push must not have touched the caller's value
+// (the by-value try_push(value_type) of the other bounded queues consumes its argument on the caller's side)
+template <class Q>
+struct ForwardingPush : std::false_type {};
+template <class T, class... P>
+struct ForwardingPush<xenium::vyukov_bounded_queue<T, P...>> : std::true_type {};
+
 template <class Q, class = void>
 struct has_pop : std::false_type {};
 template <class Q>
@@ -144,6 +151,8 @@ void own_test() {
       if (El::holds(v)) {
         if (El::id_of(v) != id || cell_get(ALIVE + id) != 1) fail("OWNERSHIP", "rejected element %d came back damaged", id);
         El::destroy(v);
+      } else if (ForwardingPush<Q>::value) {
+        fail("OWNERSHIP", "rejected push (forwarding interface) did not leave element %d with the caller", id);
       } else if (El::harness_owns) {
         fail("OWNERSHIP", "raw pointer lost by a rejected push");
       }
